@@ -8,7 +8,9 @@ use crate::machine::*;
 use crate::prng::{Fnv, Rng};
 use crate::runner::{Fail, Property, RunCtx, Tier};
 use crate::scenario::Scenario;
+use crate::worlda::{encode_stratified, Outside, WorldA};
 use zxref::mem::{RefMem, PAGE};
+use zxref::z80::{RefBus, RefZ80};
 
 pub struct C06;
 
@@ -21,6 +23,133 @@ fn marker(bank: usize, off: usize, salt: u8) -> u8 {
 fn in_stub(m: &RefMem, addr: u16) -> bool {
     let (rom, b) = m.window(addr as usize / PAGE);
     !rom && b == 2 && (addr as usize % PAGE) < 8
+}
+
+/// Reference bus of the instruction-level op: RefZ80 runs directly on RefMem (values only; the
+/// timing of the machine is C04's matter). Port reads make the step a don't-care (the value is a
+/// device's business), port writes reach the paging latch by the property's decode.
+struct MemBus<'a> {
+    m: &'a mut RefMem,
+    /// (address, previous value) of every write, in order
+    undo: Vec<(u16, u8)>,
+    io_read: bool,
+    ambiguous: bool,
+    int: bool,
+    latch_writes: u32,
+}
+
+impl<'a> RefBus for MemBus<'a> {
+    fn m1(&mut self, addr: u16) -> u8 {
+        self.m.read(addr)
+    }
+    fn rd(&mut self, addr: u16) -> u8 {
+        self.m.read(addr)
+    }
+    fn wr(&mut self, addr: u16, v: u8) {
+        self.undo.push((addr, self.m.read(addr)));
+        self.m.write(addr, v);
+    }
+    fn dly(&mut self, _addr: u16, _n: u8) {}
+    fn internal(&mut self, _n: u8) {}
+    fn io_r(&mut self, _port: u16) -> u8 {
+        self.io_read = true;
+        0xFF
+    }
+    fn io_w(&mut self, port: u16, v: u8) {
+        if self.m.m128 && port & 0x8002 == 0 {
+            if port & 1 == 1 {
+                self.m.out_7ffd(v);
+                self.latch_writes += 1;
+            } else {
+                // two devices selected: outside the property's quantifier
+                self.ambiguous = true;
+            }
+        }
+    }
+    fn sample_lines(&mut self) -> (bool, bool) {
+        (false, self.int)
+    }
+    fn int_bus_byte(&mut self) -> u8 {
+        0xFF
+    }
+}
+
+const EDGES: [u16; 10] = [0x3FFF, 0x7FFF, 0xBFFF, 0xFFFF, 0x3FFE, 0x7FFE, 0xBFFE, 0xFFFE, 0x4000, 0xC000];
+
+/// One instruction of the instruction-level op, everything derived from `seed`: start state,
+/// encoding, whether the frame interrupt is pending. Multi-byte accesses (16-bit loads and stores,
+/// stack traffic, block transfers, the IM 2 vector fetch, the instruction's own bytes) are biased to
+/// straddle the borders between the 16 KiB windows.
+fn gen_ins(seed: u64) -> (CpuState, Vec<u8>, bool) {
+    let mut rng = Rng::new(seed);
+    let mut st = CpuState::random(&mut rng);
+    st.iff1 = false;
+    st.iff2 = false;
+    st.pc = 0x4008 + (rng.u16() % 0xBFE0);
+    let b = if rng.chance(4, 5) { *rng.pick(&EDGES) } else { rng.u16() };
+    let nn = [b as u8, (b >> 8) as u8];
+    let mut int = false;
+    let enc: Vec<u8> = match rng.below(20) {
+        0 => vec![0x2A, nn[0], nn[1]],
+        1 => vec![0x22, nn[0], nn[1]],
+        2 => vec![0xED, *rng.pick(&[0x4B, 0x5B, 0x6B, 0x7B]), nn[0], nn[1]],
+        3 => vec![0xED, *rng.pick(&[0x43, 0x53, 0x63, 0x73]), nn[0], nn[1]],
+        4 => vec![*rng.pick(&[0xDD, 0xFD]), *rng.pick(&[0x2A, 0x22]), nn[0], nn[1]],
+        5 => {
+            st.sp = b;
+            vec![*rng.pick(&[0xC1, 0xD1, 0xE1, 0xF1, 0xC9])]
+        }
+        6 => {
+            st.sp = b.wrapping_add(rng.below(3) as u16);
+            vec![*rng.pick(&[0xC5, 0xD5, 0xE5, 0xF5, 0xC7, 0xFF])]
+        }
+        7 => {
+            st.sp = b.wrapping_add(rng.below(3) as u16);
+            vec![0xCD, rng.u8(), rng.u8()]
+        }
+        8 => {
+            st.sp = b;
+            if rng.bool() {
+                vec![0xE3]
+            } else {
+                vec![*rng.pick(&[0xDD, 0xFD]), 0xE3]
+            }
+        }
+        9 => {
+            st.hl = b;
+            st.de = if rng.bool() { *rng.pick(&EDGES) } else { rng.u16() };
+            st.bc = *rng.pick(&[1u16, 2, 3, 0x100]);
+            vec![0xED, *rng.pick(&[0xA0, 0xA8, 0xB0, 0xB8])]
+        }
+        10 => {
+            // IM 2: the two vector bytes straddle a window border when I = 0x3F/0x7F/0xBF/0xFF
+            int = true;
+            st.iff1 = true;
+            st.iff2 = true;
+            st.im = 2;
+            st.i = (b >> 8) as u8;
+            st.sp = if rng.bool() { b.wrapping_add(rng.below(3) as u16) } else { 0x9000 + (rng.u16() & 0x0FFF) };
+            vec![0x00]
+        }
+        11 => {
+            // the instruction's own bytes straddle a border
+            st.pc = b.wrapping_sub(rng.below(3) as u16);
+            vec![*rng.pick(&[0x21, 0x01, 0x11, 0x31, 0xC3]), rng.u8(), rng.u8()]
+        }
+        12 => vec![*rng.pick(&[0x3A, 0x32]), nn[0], nn[1]],
+        _ => {
+            match rng.below(6) {
+                0 => st.hl = b,
+                1 => st.de = b,
+                2 => st.bc = b,
+                3 => st.sp = b,
+                4 => st.ix = b.wrapping_sub(rng.below(3) as u16),
+                _ => st.iy = b.wrapping_sub(rng.below(3) as u16),
+            }
+            encode_stratified(&mut rng)
+        }
+    };
+    (st, enc, int)
 }
 
 impl C06 {
@@ -71,27 +200,27 @@ impl Property for C06 {
     }
     fn runs(&self, tier: Tier) -> u64 {
         match tier {
-            Tier::Quick => 1_000,
-            Tier::Thorough => 100_000,
+            Tier::Quick => 6_000,
+            Tier::Thorough => 300_000,
         }
     }
     fn rule(&self) -> &'static str {
-        "seeded histories of {OUT to a paging-port alias (all values, lock early/late/never, decoy ports with A15=1 or A1=1), LD (HL),A, LD A,(HL), peek, full sweep} executed by the emulated CPU from a stub in bank 2, on both machines, ROM embedded or supplied through load_rom with chunked assets; model = RefMem checked after every op; distinct = (machine, latch state incl. lock (bank, screen, rom, locked), op kind, window, bank hit)"
+        "seeded histories of {OUT to a paging-port alias (all values, lock early/late/never, decoy ports with A15=1 or A1=1), LD (HL),A, LD A,(HL), peek, full sweep, one arbitrary instruction (16-bit loads/stores, stack traffic, block transfers, IM 2 vector fetch, own bytes, stratified opcodes) with its multi-byte accesses straddling the 16 KiB window borders and RefZ80 on RefMem as the model, host load_rom in the middle of the history} executed by the emulated CPU from a stub in bank 2, on both machines, ROM embedded or supplied through load_rom with chunked assets; model = RefMem checked after every op; distinct = (machine, latch state incl. lock (bank, screen, rom, locked), op kind, window, bank hit)"
     }
     fn state_measure(&self) -> &'static str {
         "distinct (machine, paging latch value bits 0-5, locked) states in which at least one access was checked"
     }
     fn real_components(&self) -> Vec<&'static str> {
-        vec!["ZXController::write_io / write_7ffd / memory map", "ZXMemory", "Z80 (OUT (C),A; LD (HL),A; LD A,(HL))", "Emulator::peek, load_rom"]
+        vec!["ZXController::write_io / write_7ffd / memory map", "ZXMemory", "Z80 (every instruction form: all bus paths of ZXController incl. read_word/write_word overrides)", "Emulator::peek, load_rom"]
     }
     fn stub_components(&self) -> Vec<&'static str> {
-        vec!["RomSet / ROM assets (chunked SimAsset)", "RefMem (zxref::mem)"]
+        vec!["RomSet / ROM assets (chunked SimAsset)", "RefMem (zxref::mem)", "RefZ80 on RefMem (instruction-level op); bare Z80 on a flat memory (World A) only to attribute a difference to CPU or memory map"]
     }
     fn assumptions(&self) -> Vec<&'static str> {
-        vec!["paging writes use odd ports with A15=0, A1=0 and A5-A7 set (no other device selected); decoys use A15=1 or A1=1", "the 8 bytes of bank 2 that hold the stub are not written by the history"]
+        vec!["paging writes use odd ports with A15=0, A1=0 and A5-A7 set (no other device selected); decoys use A15=1 or A1=1", "the 8 bytes of bank 2 that hold the stub are not written by the history (they are restored after each instruction-level op)", "instruction-level op: instructions that read a port, or write an even port that also matches the paging decode, are don't-cares (values adopted from the machine); F3/F5, MEMPTR and Q are not compared (C01)"]
     }
     fn expected_probes(&self) -> Vec<&'static str> {
-        vec!["write_after_lock", "alias_bank5_at_c000", "alias_bank2_at_c000", "write_to_rom", "decoy_port", "sweep", "host_rom", "paging_on_48k"]
+        vec!["write_after_lock", "alias_bank5_at_c000", "alias_bank2_at_c000", "write_to_rom", "decoy_port", "sweep", "host_rom", "host_rom_midrun", "paging_on_48k", "im2_vector_fetch", "paging_by_other_out_forms"]
     }
 
     fn gen(&self, rng: &mut Rng, tier: Tier, _idx: u64) -> Scenario {
@@ -102,6 +231,7 @@ impl Property for C06 {
         sc.set("rom_chunk", *rng.pick(&[0i64, 1, 7, 100, 4096, 16384]));
         sc.set("salt", rng.range(0, 255));
         let n = if tier == Tier::Quick { rng.range(20, 200) } else { rng.range(20, 400) };
+        let ins_share = *rng.pick(&[0u64, 2, 2, 5]);
         let lock_at = match rng.below(4) {
             0 => rng.range(0, 10),
             1 => rng.range(n / 2, n),
@@ -112,6 +242,10 @@ impl Property for C06 {
             if i == lock_at {
                 let port = (rng.u16() & !0x8002) | 0x00E1;
                 sc.op("out", &[port as i64, (rng.u8() | 0x20) as i64]);
+                continue;
+            }
+            if ins_share > 0 && rng.below(10) < ins_share {
+                sc.op("ins", &[(rng.next() >> 2) as i64]);
                 continue;
             }
             match k {
@@ -138,7 +272,15 @@ impl Property for C06 {
                     sc.op("wr", &[addr, rng.u8() as i64]);
                 }
                 12..=16 => sc.op("rd", &[rng.range(0, 0xFFFF)]),
-                17 | 18 => sc.op("peek", &[rng.range(0, 0xFFFF)]),
+                17 => sc.op("peek", &[rng.range(0, 0xFFFF)]),
+                18 => {
+                    if rng.chance(1, 6) {
+                        // the host supplies a (different) ROM set while the machine is running
+                        sc.op("load_rom", &[rng.range(0, 255), *rng.pick(&[0i64, 1, 7, 100, 4096, 16384])]);
+                    } else {
+                        sc.op("peek", &[rng.range(0, 0xFFFF)]);
+                    }
+                }
                 _ => sc.op("sweep", &[*rng.pick(&[61i64, 97, 251])]),
             }
         }
@@ -307,6 +449,157 @@ impl Property for C06 {
                     let addr = op.arg(0) as u16;
                     if e.peek(addr) != m.read(addr) {
                         return Err(Fail::new("C06.peek", &format!("machine={},window={}", machine, addr as usize / PAGE), format!("peek({:04X}) = {:02X}, expected {:02X}", addr, e.peek(addr), m.read(addr))));
+                    }
+                }
+                "load_rom" => {
+                    ctx.probe("host_rom_midrun");
+                    let salt2 = op.arg(0) as u8;
+                    let chunk = op.arg(1).clamp(0, 65536) as usize;
+                    let mut pages = vec![];
+                    for r in 0..m.roms.len() {
+                        for off in 0..PAGE {
+                            m.roms[r][off] = marker(200 + r, off, salt2);
+                        }
+                        let (a, _) = SimAsset::new(m.roms[r].clone(), AssetPlan { max_chunk: chunk, eof: EofStyle::Ok0, ..Default::default() });
+                        pages.push(a);
+                        if chunk > 0 {
+                            ctx.fault("short_read(n)");
+                        }
+                    }
+                    if let Err(x) = e.load_rom(SimRomSet { pages }) {
+                        return Err(Fail::new("C06.load_rom", "", format!("load_rom failed on a complete ROM set: {:?}", x)));
+                    }
+                    for w in 0..4u32 {
+                        let a = (w * PAGE as u32 + 0x0321 + salt2 as u32 * 5) as u16;
+                        if e.peek(a) != m.read(a) {
+                            let (rom, p) = m.window(w as usize);
+                            return Err(Fail::new(
+                                "C06.load_rom_map",
+                                &format!("machine={},window={},rom_selected={}", machine, w, m.rom),
+                                format!("after the host loaded a ROM set (paging latch {:02X}, locked {}), address {:04X} reads {:02X}, expected {:02X} ({} {})", m.last_7ffd, m.locked, a, e.peek(a), m.read(a), if rom { "ROM" } else { "bank" }, p),
+                            ));
+                        }
+                    }
+                }
+                "ins" => {
+                    let (st0, enc, int) = gen_ins(op.arg(0) as u64);
+                    // the instruction bytes go through the current map on both sides
+                    for (i, b) in enc.iter().enumerate() {
+                        m.write(st0.pc.wrapping_add(i as u16), *b);
+                    }
+                    write_mem(&mut e, st0.pc, &enc);
+                    let frame = cfg.frame_len();
+                    if int {
+                        goto_frame_t(&mut e, (op.arg(0) as usize >> 7) % 16, frame);
+                    } else {
+                        let c = e.verif_frame_clocks();
+                        if c < 200 || c > frame - 2000 {
+                            goto_frame_t(&mut e, 1000, frame);
+                        }
+                    }
+                    st0.to_impl(e.verif_cpu());
+                    let pre = cpu_state(&mut e);
+                    let latch_before = (m.top, m.shadow_screen, m.rom, m.locked, m.last_7ffd);
+                    let mut r: RefZ80 = pre.to_ref();
+                    let (info, undo, io_read, amb, latch_writes) = {
+                        let mut bus = MemBus { m: &mut m, undo: vec![], io_read: false, ambiguous: false, int, latch_writes: 0 };
+                        let info = r.step(&mut bus);
+                        (info, bus.undo, bus.io_read, bus.ambiguous || info.ambiguous.is_some(), bus.latch_writes)
+                    };
+                    step_public(&mut e).map_err(|x| Fail::new("C06.step", "", x))?;
+                    let mut guard = 0;
+                    while e.verif_cpu().verif_prefix_pending() && guard < 600 {
+                        step_public(&mut e).map_err(|x| Fail::new("C06.step", "", x))?;
+                        guard += 1;
+                    }
+                    if int && info.accepted == zxref::z80::Accepted::Int {
+                        ctx.probe("im2_vector_fetch");
+                    }
+                    if latch_writes > 0 {
+                        ctx.probe("paging_by_other_out_forms");
+                    }
+                    if amb || io_read {
+                        // a device decides the value (or two devices were selected): adopt the machine's bytes
+                        ctx.ambiguous += 1;
+                        for (a, _) in &undo {
+                            let v = e.peek(*a);
+                            m.write(*a, v);
+                        }
+                        if amb {
+                            // the latch cannot be inferred from the outside: end the history here
+                            break;
+                        }
+                    } else {
+                        let mut post_i = cpu_state(&mut e);
+                        let post_r = CpuState::from_ref(&r);
+                        post_i.memptr = post_r.memptr;
+                        post_i.q = post_r.q;
+                        post_i.no_sample = post_r.no_sample;
+                        let mut what = post_i.diff(&post_r, 0x28).map(|(f, a, b)| format!("{} = {:04X}, the memory map gives {:04X}", f, a, b));
+                        if what.is_none() {
+                            for (a, _) in &undo {
+                                for w in 0..4usize {
+                                    let al = (w * PAGE + *a as usize % PAGE) as u16;
+                                    if e.peek(al) != m.read(al) {
+                                        what = Some(format!("after the instruction wrote {:04X}, address {:04X} reads {:02X}, expected {:02X}", a, al, e.peek(al), m.read(al)));
+                                    }
+                                }
+                            }
+                        }
+                        if let Some(what) = what {
+                            // attribution: the same instruction on a flat 64 KiB memory holding the bytes the
+                            // map made visible before it ran. If the bare CPU disagrees with the reference
+                            // there too, the difference is the CPU's (C01), not the memory map's.
+                            let mut before = m.clone();
+                            (before.top, before.shadow_screen, before.rom, before.locked, before.last_7ffd) = latch_before;
+                            for (a, old) in undo.iter().rev() {
+                                before.write(*a, *old);
+                            }
+                            let flat: Vec<u8> = (0..=0xFFFFu16).map(|a| before.read(a)).collect();
+                            let mut wa = WorldA::new(&pre, Outside::new(flat, 0, vec![int as u8], 0xFFFF_FFFF));
+                            wa.compare_control = false;
+                            let o = wa.step();
+                            if o.div.is_some() || o.ambiguous {
+                                ctx.probe("value_divergence_skipped");
+                                // resynchronise the model from the machine
+                                for (a, _) in &undo {
+                                    let v = e.peek(*a);
+                                    m.write(*a, v);
+                                }
+                            } else {
+                                let page = crate::worlda::page_name(info.page);
+                                return Err(Fail::new(
+                                    "C06.cpu_access",
+                                    &format!("machine={},page={},op={:02X}", machine, page, info.opcode),
+                                    format!(
+                                        "{} {:02X}{} at PC={:04X} SP={:04X} HL={:04X} DE={:04X} I={:02X} (bytes {:02X?}; top bank {}, ROM {}): {}",
+                                        page,
+                                        info.opcode,
+                                        if info.accepted == zxref::z80::Accepted::Int { " after an IM 2 interrupt entry" } else { "" },
+                                        pre.pc,
+                                        pre.sp,
+                                        pre.hl,
+                                        pre.de,
+                                        pre.i,
+                                        enc,
+                                        latch_before.0,
+                                        latch_before.2,
+                                        what
+                                    ),
+                                ));
+                            }
+                        }
+                        let mut h = Fnv::new();
+                        h.u64(latch_state);
+                        h.u8(3);
+                        h.u8(info.page as u8);
+                        h.u8(info.opcode);
+                        ctx.cover(h.get());
+                    }
+                    // the fixed stub may have been overwritten
+                    write_mem(&mut e, STUB, &stub);
+                    for (i, b) in stub.iter().enumerate() {
+                        m.banks[2][i] = *b;
                     }
                 }
                 "sweep" => {
